@@ -68,6 +68,8 @@ class RegistryServer(object):
 
     def _remove_service(self, name, addrinfo):
         """removes a single server of the given service"""
+        if addrinfo not in self.services[name]:
+            return
         self.services[name].pop(addrinfo, None)
         if not self.services[name]:
             del self.services[name]
